@@ -28,6 +28,7 @@ type tcase struct {
 	orc   typesOutcome
 	model string
 	line  string // protocol line, when not derived from p
+	u     *uprog // declaration/use stream: the program is not a *Prog
 }
 
 func (tc *tcase) protoLine() string {
@@ -48,6 +49,20 @@ func clause(real buildOutcome, orc typesOutcome) string {
 		return "accepts-what-go/types-rejects"
 	case real.Class == "builderror" && orc.OK:
 		return "rejects-what-go/types-accepts"
+	}
+	return ""
+}
+
+// classify recognises, on a shrunk failing case, the classes of recorded findings that cannot
+// be pinned to one program: it returns the finding id or "".
+//
+//   - untyped-float-constant-arithmetic-not-exact: Build rejects with "truncated to integer" a
+//     constant that go/types accepts, and the program has a constant subexpression whose exact
+//     value is not a binary fraction (Scriggo computes quotients in binary floating point of 512
+//     bits, go/types with exact rationals: 3000.0 * (76 / 1000.0) is 228 only exactly).
+func classify(cl string, r buildOutcome, o typesOutcome) string {
+	if cl == "rejects-what-go/types-accepts" && o.NonDyadic && strings.Contains(r.Msg, "truncated to integer") {
+		return "untyped-float-constant-arithmetic-not-exact"
 	}
 	return ""
 }
@@ -140,6 +155,10 @@ func (s *S) mentions(id int) bool {
 		if s.ID == id {
 			return true
 		}
+	case "short2":
+		if s.ID == id || s.ID2 == id {
+			return true
+		}
 	}
 	found := false
 	var rec func(e *E)
@@ -154,6 +173,7 @@ func (s *S) mentions(id int) bool {
 		rec(e.C)
 	}
 	rec(s.A)
+	rec(s.B)
 	return found
 }
 
@@ -198,6 +218,10 @@ func run(c *hx.Ctx) error {
 	}
 	for _, p := range extraStreams(c) {
 		add(p.p, p.kind)
+	}
+	for i, nu := 0, c.N(1500, 120000); i < nu; i++ {
+		u := usageProgram(c)
+		cases = append(cases, &tcase{p: &Prog{Pre: "-"}, u: u, kind: "stream:declaration-use", src: u.src()})
 	}
 
 	// model answers
@@ -249,6 +273,41 @@ func run(c *hx.Ctx) error {
 			}
 			continue
 		}
+		if tc.u != nil {
+			// error classes: reported, not judged
+			if !tc.orc.OK && tc.real.Class == "builderror" {
+				rc := errClass(tc.real.Msg)
+				same := false
+				for _, k := range tc.orc.Classes {
+					same = same || k == rc
+				}
+				if same {
+					res.Hist("error-class:same")
+				} else {
+					res.Hist("error-class:different")
+					if classNotes < 3 {
+						classNotes++
+						res.Notes = append(res.Notes, fmt.Sprintf("error class differs (not a failure): Build %q, go/types %v on %q", tc.real.Msg, tc.orc.Classes, tc.src))
+					}
+				}
+			}
+			if !tc.orc.OK {
+				for _, k := range tc.orc.Classes {
+					res.Hist("go/types-error:" + k)
+				}
+			}
+		}
+		if cl != "" && tc.u != nil {
+			min := shrinkU(tc.u, cl)
+			r, o := evalSrc(min.src())
+			res.AddBreak(proto.Break{Kind: "property", Name: cl, Case: "source", Human: min.src(),
+				Impl: r.Class + " " + r.Msg, Model: fmt.Sprintf("go/types ok=%v %s", o.OK, o.Msg)})
+			if os.Getenv("C03_VERBOSE") != "" && !seenMin[min.src()] {
+				seenMin[min.src()] = true
+				fmt.Fprintf(os.Stderr, "---- %s (%s)\n%s  build: %s %s\n  go/types: ok=%v %s\n", cl, tc.kind, min.src(), r.Class, r.Msg, o.OK, o.Msg)
+			}
+			continue
+		}
 		if cl != "" {
 			min := shrink(tc.p, cl)
 			r, o := evalSrc(min.src())
@@ -261,6 +320,9 @@ func run(c *hx.Ctx) error {
 				if findingSrc(f.Minimal) == canonical(min).src() {
 					b.Finding = f.ID
 				}
+			}
+			if fid := classify(cl, r, o); fid != "" {
+				b.Finding = c.Known(fid)
 			}
 			res.AddBreak(b)
 			if os.Getenv("C03_VERBOSE") != "" && !seenMin[canonical(min).src()] {
@@ -312,8 +374,18 @@ func replay(c *hx.Ctx) error {
 	c.Res.Sample(map[string]string{"source": rp.Human, "build": r.Class + " " + r.Msg,
 		"go/types": fmt.Sprintf("ok=%v %s", o.OK, o.Msg), "model": model})
 	if cl := clause(r, o); cl != "" && (o.known() == "" || cl == "build-panics" || cl == "rejection-is-not-a-BuildError") {
-		c.Res.AddBreak(proto.Break{Kind: "property", Name: cl, Case: rp.Case, Human: rp.Human,
-			Impl: r.Class + " " + r.Msg, Model: fmt.Sprintf("go/types ok=%v %s", o.OK, o.Msg)})
+		b := proto.Break{Kind: "property", Name: cl, Case: rp.Case, Human: rp.Human,
+			Impl: r.Class + " " + r.Msg, Model: fmt.Sprintf("go/types ok=%v %s", o.OK, o.Msg)}
+		for _, f := range c.Findings {
+			if findingSrc(f.Minimal) == rp.Human {
+				b.Finding = f.ID
+			}
+		}
+		if fid := classify(cl, r, o); fid != "" {
+			b.Finding = c.Known(fid)
+		}
+		c.Res.AddBreak(b)
+		return nil
 	}
 	if model != "" {
 		compareModel(c, &tcase{p: &Prog{}, src: rp.Human, real: r, orc: o, model: model, line: rp.Case})
@@ -322,6 +394,7 @@ func replay(c *hx.Ctx) error {
 }
 
 var seenMin = map[string]bool{}
+var classNotes int
 
 // canonical renames the identifiers of a program in order of first occurrence.
 func canonical(p *Prog) *Prog {
@@ -353,6 +426,11 @@ func canonical(p *Prog) *Prog {
 		case "var", "short", "const":
 			rec(s.A)
 			s.ID = get(s.ID)
+		case "short2":
+			rec(s.A)
+			rec(s.B)
+			s.ID = get(s.ID)
+			s.ID2 = get(s.ID2)
 		default:
 			rec(s.A)
 		}
